@@ -323,6 +323,9 @@ def run(tier: str, seed: int) -> Report:
                         if any(lab.startswith(prefix) for _i, lab in sv[t["id"]][1])})
         mres[name] = {"labels": labels, "paths": paths}
         if not any(lab.startswith(prefix) for lab in labels):
+            if rep.violations:  # the tree under test is itself broken: report that, not the self-test
+                mres[name]["inconclusive"] = "the tree under test already violates the contract"
+                continue
             raise Machinery(f"binding self-test: server mutant '{name}' not rejected with a {prefix} clause "
                             f"(labels: {labels})")
     rep.extra["binding_selftest"] = {"corrupted": cor, "server_mutants": mres}
